@@ -443,7 +443,12 @@ theorem groupDigests_spec {ds : List DDigest} {groups : List Group} (h : groupDi
   unfold groupDigests at h
   have hperm : ∀ d, d ∈ isort digestLe ds ↔ d ∈ ds := fun d => mem_isort _ d ds
   split at h
-  · simp at h
+  · rename_i heq
+    simp only [Option.some.injEq] at h
+    subst h
+    rw [heq] at hperm
+    have hds : ∀ d, d ∉ ds := fun d hd => by simpa using (hperm d).mpr hd
+    refine ⟨by simp, by simp, fun d hd => absurd hd (hds d), by simp⟩
   · rename_i d rest heq
     simp only [Option.some.injEq] at h
     subst h
